@@ -429,6 +429,11 @@ func (it *Interp) call(fn *ssa.Function, args []Value, env []Value, caller *fram
 		}
 		return it.call(mf, args, nil, caller)
 	}
+	if _, pure := nativePure[name]; pure {
+		if r, ok := it.callNativePure(name, args); ok {
+			return r // every argument concrete: the real function's result
+		}
+	}
 	if h, ok := intrinsics[name]; ok {
 		return h(it, args)
 	}
